@@ -157,10 +157,21 @@ impl World {
         let _ = std::fs::remove_file(&path);
         let base = open_fds();
         let mut server = HttpServer::new(&path).expect("bind");
+        // both documented orders occur: the kill switch installed before `start_server` (every other world) or after it
+        let mut kill_pair: Option<(EventFd, RawFd)> = None;
+        let kill_first = with_kill && n % 2 == 0;
+        if kill_first {
+            let ev = EventFd::new(libc::EFD_NONBLOCK).unwrap();
+            let clone = ev.try_clone().unwrap();
+            let kfd = clone.as_raw_fd();
+            server.add_kill_switch(clone).unwrap();
+            kill_pair = Some((ev, kfd));
+        }
         server.start_server().expect("start");
         let epfd = server.epoll().as_raw_fd();
         let regs = epoll_registrations(epfd);
-        let listener_fd = regs.first().map(|x| x.0).unwrap_or(-1);
+        let kfd_opt = kill_pair.as_ref().map(|p| p.1);
+        let listener_fd = regs.iter().map(|x| x.0).find(|fd| Some(*fd) != kfd_opt).unwrap_or(-1);
         let mut w = World {
             server: Some(server),
             path,
@@ -191,7 +202,11 @@ impl World {
             w.server.as_mut().unwrap().set_payload_max_size(l);
             w.emit(rec, format!("srv limit {}", l), "ok".into());
         }
-        if with_kill {
+        if let Some((ev, kfd)) = kill_pair {
+            w.kill_fd = Some(kfd);
+            w.kill = Some(ev);
+            w.emit(rec, "srv killadd".into(), "ok".into());
+        } else if with_kill {
             let ev = EventFd::new(libc::EFD_NONBLOCK).unwrap();
             let clone = ev.try_clone().unwrap();
             w.kill_fd = Some(clone.as_raw_fd());
